@@ -256,6 +256,24 @@ func ownStress(seed int64, per, clients int) int {
 	return bad
 }
 
+// scenario handlemix: the concurrent handler load of C04 (small cache, unsupported queries mixed in): pooled
+// objects (messages, questions) that are released twice or used after release show up as wrong responses.
+func ownHandleMix(seed int64, per int) int {
+	out := runHandleMix(fmt.Sprintf("workers=16 per=%d names=300 notimp=20 seed=%d", per, seed))
+	m := kv(out)
+	if out == "fixture-error" {
+		return -1
+	}
+	n := atoi(m["sent"])
+	bad := 0
+	for _, k := range []string{"answered", "idok", "own", "rcodeok"} {
+		if d := n - atoi(m[k]); d > bad {
+			bad = d
+		}
+	}
+	return bad
+}
+
 func runOwnership(cs string) string {
 	m := kv(cs)
 	seed := int64(atoi(m["seed"]))
@@ -269,6 +287,8 @@ func runOwnership(cs string) string {
 		corrupt = ownCache(seed)
 	case "stress":
 		corrupt = ownStress(seed, atoi(m["per"]), atoi(m["clients"]))
+	case "handlemix":
+		corrupt = ownHandleMix(seed, atoi(m["per"]))
 	default:
 		return "bad-case"
 	}
@@ -289,6 +309,7 @@ func genOwnership(r *rand.Rand, thorough bool, emit func(c, cat string)) {
 		emit(fmt.Sprintf("scenario=cancel seed=%d", r.Intn(1<<30)), "cancel")
 		emit(fmt.Sprintf("scenario=cache seed=%d", r.Intn(1<<30)), "cache")
 		emit(fmt.Sprintf("scenario=stress per=%d clients=%d seed=%d", per, clients, r.Intn(1<<30)), "stress")
+		emit(fmt.Sprintf("scenario=handlemix per=%d seed=%d", per*100, r.Intn(1<<30)), "handlemix")
 	}
 }
 
